@@ -23,7 +23,7 @@ from .. import refcalc_activation as ra
 
 PROPERTY = "C14"
 RULE = ("rows: Hypothesis draws an environment (fluence 1e2..1e16, Cd ratio in {0} u (0,1) u [1,1e3], fast ratio in "
-        "{0} u [1,1e3], exposure 1e-3..1e4 h, 1..6 rest times in {0} u [1e-3,1e5] h, mass 1e-6..1e3 g, a second mass "
+        "{0} u [1e-3,1e3], exposure 1e-3..1e4 h, 1..6 rest times in {0} u [1e-3,1e5] h, mass 1e-6..1e3 g, a second mass "
         "and a longer exposure) and EVERY row of activation.dat (independent reader) is evaluated in it; oracle = "
         "exact chain solution in decimal (120+ digits), accepted at rel 1e-9 (+1e-290 absolute for underflow); larger "
         "errors are classified small-argument / cancellation (<= 64 eps kappa) / wrong-value per branch; relations: "
@@ -52,7 +52,9 @@ ASSUMPTIONS = [
     "on the unchanged tree: 0.25)",
     "sample-level checks use activity() of the isotope as the base (metamorphic), the row-level checks decide its "
     "accuracy; atom masses are taken from the table (C06 decides them)",
-    "fast ratio is generated in {0} u [1, 1e3]; Cd ratio in (0,1) means 'no epithermal term' as for 0",
+    "fast ratio (thermal/fast) is generated in {0} u [1e-3, 1) u {1} u (1, 1e3]: fast reactions are omitted only for 0, "
+    "any positive ratio gives the fast flux fluence/ratio; Cd ratio in {0} u (0,1) u {1} u (1, 1e3], below 1 means 'no "
+    "epithermal term' as for 0",
 ]
 EXHAUSTIVE = True
 EXHAUSTIVE_NOTE = ("all 513 rows of activation.dat are evaluated in every generated environment; all fields of all "
@@ -130,11 +132,13 @@ def logu(lo, hi):
 
 
 def cd_ratio():
-    return st.one_of(st.just(0.0), logu(1, 1e3), st.floats(0.01, 0.99), st.just(1.0), logu(1, 1e3))
+    """cadmium ratio: 0, (0, 1) (both: no epithermal term), exactly 1, (1, 1e3]"""
+    return st.one_of(st.just(0.0), logu(1, 1e3), st.floats(0.01, 0.99), logu(1e-3, 0.999), st.just(1.0), logu(1, 1e3))
 
 
 def fast_ratio():
-    return st.one_of(st.just(0.0), logu(1, 1e3), logu(1, 1e3))
+    """thermal/fast ratio: 0 (no fast reactions), a fast-dominated beam (0, 1), exactly 1, (1, 1e3]"""
+    return st.one_of(st.just(0.0), logu(1e-3, 1.0), logu(1e-3, 1.0), st.just(1.0), logu(1, 1e3), logu(1, 1e3))
 
 
 def rest_list(hi=1e5, max_size=6):
@@ -501,7 +505,11 @@ def sample_atoms(E):
     related = st.tuples(st.sampled_from(P["iso"]), count, count, count, st.booleans()).map(
         lambda t: [[[t[0][0], 0, 0], t[1]], [t[0], t[2]]] +
         ([[[t[0][0], t[0][1], E.table.symbol(t[0][0]).ions[0]], t[3]]] if t[4] and E.table.symbol(t[0][0]).ions else []))
-    return st.one_of(free, free, free, related)
+    # several distinct activating elements in one formula
+    multi = st.lists(st.sampled_from(P["active"]), min_size=3, max_size=6, unique=True).flatmap(
+        lambda syms: st.lists(count, min_size=len(syms), max_size=len(syms)).map(
+            lambda cs: [[[sy, 0, 0], c] for sy, c in zip(syms, cs)]))
+    return st.one_of(free, free, free, related, multi, multi)
 
 
 def resolve(E, spec):
@@ -780,12 +788,42 @@ def task_elements(ctx):
     # both abundance functions for every element, in both orders within the
     # process: pass 0 uses NIST then IAEA for even positions and IAEA then NIST for
     # odd ones, pass 1 the reverse (so every element sees N,I,I,N or I,N,N,I)
+    # second pass in a fast-dominated beam (thermal/fast ratio below 1) with Cd ratio exactly 1
+    envs = (envd, dict(envd, fast=0.5, Cd=1.0))
     for rep in (0, 1):
+        envd = envs[rep]
         for n, sym in enumerate(syms):
             order = ("NIST", "IAEA") if (n + rep) % 2 == 0 else ("IAEA", "NIST")
             for which in order:
                 for spec in ([sym, 0, 0],) + tuple([sym, 0, c] for c in E.table.symbol(sym).ions[:1]):
                     ctx.check(check_sample, [[[spec, "1"]], envd, which])
+
+
+FAMILY_ENVS = [
+    dict(fluence=1e10, Cd=0.0, fast=0.0, exposure=10.0, rests=[0.0, 1.0, 24.0], mass=1.0, mass2=2.0, grow=1.0),
+    dict(fluence=1e12, Cd=20.0, fast=0.5, exposure=100.0, rests=[2.0, 0.0, 360.0], mass=0.1, mass2=2.0, grow=1.0),
+]
+
+
+def family_formulas(E):
+    """For every daughter listed under two parent elements: both parents in one
+    formula, both orders, mass ratios ~1:1, 30:1, 1:30 (by atom count)."""
+    out = []
+    for name, p1, p2, hl in ra.shared_daughters(E.rows):
+        for atoms in ([[[p1, 0, 0], "1"], [[p2, 0, 0], "1"]], [[[p2, 0, 0], "1"], [[p1, 0, 0], "1"]],
+                      [[[p1, 0, 0], "30"], [[p2, 0, 0], "1"]], [[[p2, 0, 0], "30"], [[p1, 0, 0], "1"]]):
+            out.append((name, atoms, hl))
+    return out
+
+
+def task_families(ctx):
+    E = env()
+    fams = family_formulas(E)
+    ctx.extra["shared_daughter_parent_pairs"] = len(fams) // 4
+    for n, (name, atoms, hl) in enumerate(fams):
+        for m, envd in enumerate(FAMILY_ENVS):
+            ctx.count("family:" + ("fast" if envd["fast"] else "thermal-only"))
+            ctx.check(check_sample, [atoms, envd, "NIST" if (n + m) % 2 == 0 else "IAEA"])
 
 
 def task_rows(ctx, n, part, parts, epi=True):
@@ -805,6 +843,7 @@ def tasks(tier):
         out.append(("samples", task_samples, dict(n=400)))
         out.append(("reuse", task_reuse, dict(n=200)))
         out.append(("elements", task_elements, {}))
+        out.append(("families", task_families, {}))
         out.append(("table", task_table, {}))
         return out
     out = []
@@ -816,6 +855,7 @@ def tasks(tier):
     out.append(("reuse-a", task_reuse, dict(n=5000)))
     out.append(("reuse-b", task_reuse, dict(n=5000)))
     out.append(("elements", task_elements, {}))
+    out.append(("families", task_families, {}))
     out.append(("table", task_table, {}))
     return out
 
